@@ -134,12 +134,16 @@ func createPresignedHttpRequestFromCtx(ctx *fiber.Ctx, signedHdrs []string, cont
 	ctx.Request().URI().QueryArgs().VisitAll(func(key, value []byte) {
 		_, ok := signedQueryArgs[string(key)]
 		if !ok {
+			// keys are escaped like values: the request rebuilt here is
+			// parsed once more by the signer, and a raw key would be
+			// decoded a second time (or dropped when it holds a ';')
+			escapeKey := url.QueryEscape(string(key))
 			escapeValue := url.QueryEscape(string(value))
 			if isFirst {
-				uri += fmt.Sprintf("?%s=%s", key, escapeValue)
+				uri += fmt.Sprintf("?%s=%s", escapeKey, escapeValue)
 				isFirst = false
 			} else {
-				uri += fmt.Sprintf("&%s=%s", key, escapeValue)
+				uri += fmt.Sprintf("&%s=%s", escapeKey, escapeValue)
 			}
 		}
 	})
